@@ -27,7 +27,9 @@ def command_events(ctx):
                         q = ("`b\\u{{z" * len(seq))[:len(seq)]
                     f.write("@r0_%d\n%s\n+\n%s\n" % (k, seq, q))
                 else:
-                    f.write(">r0_%d\n%s\n" % (k, seq))
+                    # some records carry a taxid, with or without the name of the taxon (obicsv --taxon)
+                    ann = {0: "", 1: ' {"taxid":7742}', 2: ' {"taxid":9606,"scientific_name":"Homo sapiens"}', 3: ' {"taxid":1}'}[k % 4]
+                    f.write(">r0_%d%s\n%s\n" % (k, ann, seq))
         return name
     conv, ocsv = os.path.join(bindir, "obiconvert"), os.path.join(bindir, "obicsv")
     jobs, evs = [], []
@@ -39,7 +41,8 @@ def command_events(ctx):
                 base = ["--max-cpu", str(cpu), "--batch-size", str(bs)] + zopt
                 for fmt, cmd, opts, inp in (("fasta", conv, ["--fasta-output"], fa), ("fastq", conv, ["--fastq-output"], fq),
                                             ("json", conv, ["--json-output"], fa), ("json", conv, ["--json-output"], fq),
-                                            ("csv", ocsv, ["--ids", "--count", "--sequence"], fa)):
+                                            ("csv", ocsv, ["--ids", "--count", "--sequence"], fa),
+                                            ("csv", ocsv, ["--ids", "--count", "--taxon", "--sequence"], fa)):
                     for how in ("stdout", "file"):
                         if how == "file" and fmt == "csv":
                             continue                      # obicsv ignores -o (outside C04)
@@ -82,6 +85,10 @@ def command_events(ctx):
                 elif e["fmt"] == "csv":
                     rows = list(csv.reader(io.StringIO(text)))
                     toks = (["header"] if rows and rows[0][:1] == ["id"] else []) + [r_[0] for r_ in rows[1:]]
+                    # one well-formed row per record: as many fields as the header announces, the sequence in its column
+                    for r_ in rows[1:]:
+                        if len(r_) != len(rows[0]) or ("sequence" in rows[0] and r_[rows[0].index("sequence")].strip("acgtn") != ""):
+                            toks.append("junk:row-of-%s-%d-fields-for-%d-columns" % (r_[0], len(r_), len(rows[0])))
                     if e["sizes"] == [0] and toks == ["header"]:
                         pass
                 elif e["fmt"] == "fasta":
